@@ -53,6 +53,17 @@ FailsCb(e) ==
   \o Chk(e.calls = e.failAt + 1, "callback called again after it returned an error (or not reached)")
   \o Chk(DeliveredIs(e, e.failAt), "records before the failing callback were not delivered exactly")
 
+\* the same on a file whose block holding record i has a damaged / missing sync marker.  A reader may refuse such a
+\* block before it delivers anything from it (then the callback is never reached at record i and the error is the
+\* reader's own); but once the callback has been reached and has returned its error, that error is what comes back
+FailsCbDmg(e) ==
+  Chk(e.panic = "", "reader panicked")
+  \o (IF e.calls = e.failAt + 1
+      THEN Chk(e.err = "sentinel", "the callback returned an error at this record but a different error (or success) came back")
+           \o Chk(DeliveredIs(e, e.failAt), "records before the failing callback were not delivered exactly")
+      ELSE Chk(e.calls <= e.failAt /\ e.err = "other", "callback called again after it returned an error, or a damaged block read with success")
+           \o Chk(DeliveredPrefixBetween(e, 0, e.failAt), "wrong records delivered ahead of a damaged block"))
+
 \* a single flipped bit at 1-based position e.pos
 BlockOfPos(p) == LET Q == {k \in 1..Len(pf.blocks) : p >= pf.blocks[k].start /\ p < pf.blocks[k].end} IN IF Q = {} THEN 0 ELSE CHOOSE k \in Q : TRUE
 FailsFlip(e) ==
@@ -93,6 +104,7 @@ FailsHdr(e) ==
 
 Fails(e) == CASE e.op = "rd_cut"  -> FailsCut(e)
               [] e.op = "rd_cb"   -> FailsCb(e)
+              [] e.op = "rd_cb_dmg" -> FailsCbDmg(e)
               [] e.op = "rd_flip" -> FailsFlip(e)
               [] e.op = "rd_hdr"  -> FailsHdr(e)
               [] OTHER -> <<"unknown event">>
